@@ -58,7 +58,10 @@ const c07TextFam = gen.FAscii | gen.FHTML | gen.FMD | gen.FWide | gen.FNewline |
 const c07ValueFam = c07TextFam | gen.FSGR | gen.FNUL | gen.FInvalid | gen.FZero | gen.FCR
 
 func c07RandomItem(r *gen.R) c07Item {
-	switch r.Intn(22) {
+	switch r.Intn(23) {
+	case 22:
+		a, b := r.Word(), r.Word()
+		return c07Item{Desc: fmt.Sprintf("item holding a nested table (%s, %s) which it renders from MarshalJSON and String", a, b), item: newNestedTableItem(a, b)}
 	case 0:
 		return c07Item{Desc: "nil", item: nil}
 	case 1:
